@@ -38,6 +38,7 @@ import (
 	"github.com/ajitpratap0/GoSQLX/pkg/sql/keywords"
 	"github.com/ajitpratap0/GoSQLX/pkg/sql/ast"
 	"github.com/ajitpratap0/GoSQLX/pkg/sql/parser"
+	"github.com/ajitpratap0/GoSQLX/pkg/sql/security"
 	"github.com/ajitpratap0/GoSQLX/pkg/sql/token"
 	"github.com/ajitpratap0/GoSQLX/pkg/sql/tokenizer"
 
@@ -101,6 +102,12 @@ func textOps() []op {
 				_ = gosqlx.ExtractColumnsQualified(tree)
 				_ = gosqlx.ExtractFunctions(tree)
 				_ = gosqlx.ExtractMetadata(tree)
+				ast.ReleaseAST(tree)
+			}
+		}},
+		op{"security.Scan(tree)", func(it *item) {
+			if tree, err := gosqlx.Parse(it.Text); err == nil {
+				_ = security.NewScanner().Scan(tree)
 				ast.ReleaseAST(tree)
 			}
 		}},
@@ -258,6 +265,10 @@ func sliceOps() []op {
 
 const watchdog = 20 * time.Second
 
+// operations whose behaviour depends on the raw text beyond tokenizing it
+var rawOps = map[string]bool{"ops.tokenize": true, "ops.parse": true, "ops.scan": true, "ops.lint": true, "ops.format": true, "ops.recovery": true,
+	"TokenizeContext": true, "ops.errtext": true, "ops.formatpkg": true}
+
 func child(workFile string, shard, shards, from int, out string) {
 	debug.SetMaxStack(1 << 30)
 	run = core.NewRun("C01", os.Getenv("VERIF_TIER"), "model_checking")
@@ -285,6 +296,9 @@ func child(workFile string, shard, shards, from int, out string) {
 			list = sops
 		}
 		for oi, o := range list {
+			if it.Origin == "Lexer.tla-narrow" && os.Getenv("VERIF_TIER") != "thorough" && !rawOps[o.name] {
+				continue // the quick tier runs these through the operations that read the raw text
+			}
 			fmt.Fprintf(w, "P %d %d\n", idx, oi)
 			w.Flush()
 			done := make(chan any, 1)
@@ -595,6 +609,22 @@ func build(tier string) []item {
 			if !seenText[t] {
 				seenText[t] = true
 				add(item{Kind: "text", Text: t, Origin: "Lexer.tla"})
+			}
+		}
+	}
+	// texts: long inputs over narrow alphabets (quoting, comment and dollar-tag machinery needs length, not breadth)
+	for _, cfg := range []string{"Lexer_dol3_10.cfg", "Lexer_sq2_11.cfg", "Lexer_dq3_8.cfg", "Lexer_com3_9.cfg", "Lexer_blk3_9.cfg", "Lexer_bs3_8.cfg", "Lexer_bt3_8.cfg"} {
+		r := core.MustTLC(core.TLCOpts{Spec: "Lexer", Cfg: cfg, Timeout: 30 * time.Minute})
+		run.AddTLC(r.Stat("reference lexer over a narrow alphabet to greater length (source of byte-class sequences)"))
+		for li, line := range r.Cases {
+			var cs lexcheck.Case
+			if json.Unmarshal([]byte(line), &cs) != nil {
+				continue
+			}
+			t := lexconc.Concretise(cs.Inp, li%2).S
+			if !seenText[t] {
+				seenText[t] = true
+				add(item{Kind: "text", Text: t, Origin: "Lexer.tla-narrow"})
 			}
 		}
 	}
